@@ -46,7 +46,7 @@ func runC19(c *Ctx) {
 		for _, ci := range flow.CallInstrs(f) {
 			com := ci.Common()
 			if com.IsInvoke() && com.Method.Name() == "ReadAtLeast" && len(com.Args) == 3 {
-				if k, ok := com.Args[2].(*ssa.Const); ok && k.Value != nil && k.Uint64() == ^uint64(0) {
+				if k, ok := com.Args[2].(*ssa.Const); ok && k.Value != nil && isAllOnes(k) {
 					hdrRA = append(hdrRA, ci)
 				} else {
 					bodyRA = append(bodyRA, ci)
@@ -184,6 +184,7 @@ func runC19(c *Ctx) {
 
 	// ---- R3 ----
 	c.c19ReadStream(rs)
+	c.c19ReportedStream()
 
 	// buffered bytes are copies: a stream buffer must not alias the caller's (reused) read buffer
 	nBuf := 0
@@ -399,7 +400,7 @@ func (c *Ctx) c19ReadStream(rs *ssa.Function) {
 				okSrc = true
 				return true
 			}
-			if k, ok := v.(*ssa.Const); ok && k.Value != nil && k.Uint64() == ^uint64(0) {
+			if k, ok := v.(*ssa.Const); ok && k.Value != nil && isAllOnes(k) {
 				return true
 			}
 			if ph, ok := v.(*ssa.Phi); ok {
@@ -422,4 +423,76 @@ func (c *Ctx) c19ReadStream(rs *ssa.Function) {
 		}
 	}
 	r.Check(good, "R3", key, c.pos(sread), "bytes of another stream are appended to that stream's buffer (b[0:n], info.Stream)", why)
+}
+
+// c19ReportedStream: R3 — a function of the SCTP adaptor that takes bytes out of a per-stream buffer and reports
+// a stream number reports the stream of that very buffer: the reported value is the stream field of the same
+// buffer object whose Read supplied the bytes (not of whatever sits at the heap's root afterwards).
+func (c *Ctx) c19ReportedStream() {
+	r := c.R
+	n := 0
+	for _, f := range c.P.LibraryFuncs() {
+		if pkgOf(f).Path() != pkgDiam || f.Signature.Recv() == nil || !strings.Contains(flow.RecvTypeName(f.Signature), "SCTP") {
+			continue
+		}
+		// index of the uint (stream) result
+		si := -1
+		for i := 0; i < f.Signature.Results().Len(); i++ {
+			if b, ok := f.Signature.Results().At(i).Type().Underlying().(*types.Basic); ok && b.Kind() == types.Uint {
+				si = i
+			}
+		}
+		if si < 0 {
+			continue
+		}
+		for _, ci := range flow.CallInstrs(f) {
+			call, ok := ci.(*ssa.Call)
+			if !ok || !flow.IsCallTo(call, "bytes", "Buffer", "Read") {
+				continue
+			}
+			// the buffer object: &X.Buffer
+			recv := call.Call.Args[0]
+			if u, isLoad := recv.(*ssa.UnOp); isLoad && u.Op == token.MUL {
+				recv = u.X // embedded *bytes.Buffer: the pointer is loaded from the buffer object
+			}
+			fa, ok := recv.(*ssa.FieldAddr)
+			if !ok {
+				continue
+			}
+			X := fa.X
+			n++
+			key := fname(f) + ":reports-stream-of-buffer-read"
+			good, why := true, ""
+			flow.Instrs(f, func(in ssa.Instruction) {
+				ret, ok := in.(*ssa.Return)
+				if !ok || si >= len(ret.Results) || !flow.Dominates(call, ret) {
+					return
+				}
+				for _, src := range flow.SpillSources(ret.Results[si]) {
+					if _, isK := src.(*ssa.Const); isK {
+						continue
+					}
+					_, fld, base, okf := flow.FieldOf(flow.Peel(src))
+					if !okf || fld != "stream" || base != X {
+						good = false
+						why = "after taking bytes out of one stream's buffer the function reports a stream number that is not that buffer's own (" + short(src.String(), 40) + "): the bytes are attributed to another stream"
+					}
+				}
+			})
+			r.Check(good, "R3", key, c.pos(call), "the stream reported with buffered bytes is the stream field of the buffer they were read from", why)
+		}
+	}
+	if n == 0 {
+		r.Trivial("R3", "SCTPConn:reports-stream-of-buffer-read", "-", "no function both reads a stream buffer and reports a stream")
+	}
+}
+
+// isAllOnes: the constant is the all-ones value of its unsigned type (^uint(0) is 2^32−1 on 32-bit targets and
+// 2^64−1 on 64-bit ones): the library's InvalidStreamID.
+func isAllOnes(k *ssa.Const) bool {
+	if k == nil || k.Value == nil {
+		return false
+	}
+	v := k.Uint64()
+	return v == ^uint64(0) || v == uint64(^uint32(0))
 }
